@@ -28,9 +28,13 @@ TABLE = {
     "Madgwick/MARG": [("gain=0.4", {"gain": 0.4}, 6000, 5 * 0.4 * 0.01 + 2e-3, "qt"), ("beta=0.4", {"beta": 0.4}, 6000, 5 * 0.4 * 0.01 + 2e-3, "qt"),
                       ("gain_marg=0.4", {"gain_marg": 0.4}, 6000, 5 * 0.4 * 0.01 + 2e-3, "qt"),
                       ("gain=0.041", {"gain": 0.041}, 50000, 5 * 0.041 * 0.01 + 2e-3, "t")],
-    "Mahony/IMU": [("default", {}, 4000, 0.2 * DEG, "qt"), ("kP=3,kI=1", {"k_P": 3.0, "k_I": 1.0}, 3000, 0.2 * DEG, "qt"), ("kp=3,ki=1", {"kp": 3.0, "ki": 1.0}, 3000, 0.2 * DEG, "qt")],
-    "Mahony/MARG": [("kP=3,kI=1", {"k_P": 3.0, "k_I": 1.0}, 15000, 1.0 * DEG, "qt"), ("default", {}, 40000, 1.0 * DEG, "t")],
-    "EKF/IMU/NED": [("default", {}, 3000, 0.2 * DEG, "qt")],
+    # (rows "... given" hand the filter option arrays the caller defined once and gives to every filter it builds: before the judged run another
+    #  filter is built from the same arrays and run from far away, as in a loop over test cases)
+    "Mahony/IMU": [("default", {}, 4000, 0.2 * DEG, "qt"), ("kP=3,kI=1", {"k_P": 3.0, "k_I": 1.0}, 3000, 0.2 * DEG, "qt"), ("kp=3,ki=1", {"kp": 3.0, "ki": 1.0}, 3000, 0.2 * DEG, "qt"),
+                   ("kP=3,kI=1,b0 given", {"k_P": 3.0, "k_I": 1.0, "b0": "shared:zeros3"}, 3000, 0.2 * DEG, "qt")],
+    "Mahony/MARG": [("kP=3,kI=1", {"k_P": 3.0, "k_I": 1.0}, 15000, 1.0 * DEG, "qt"), ("default", {}, 40000, 1.0 * DEG, "t"),
+                    ("kP=3,kI=1,b0 given", {"k_P": 3.0, "k_I": 1.0, "b0": "shared:zeros3"}, 15000, 1.0 * DEG, "qt")],
+    "EKF/IMU/NED": [("default", {}, 3000, 0.2 * DEG, "qt"), ("P and noises given", {"P": "shared:eye4", "noises": "shared:noises"}, 3000, 0.2 * DEG, "qt")],
     "EKF/IMU/ENU": [("default", {}, 3000, 0.2 * DEG, "qt")],
     "EKF/MARG/NED": [("default", {}, 12000, 0.3 * DEG, "qt"), ("magnetic_ref=field vector", {"magnetic_ref": "ref_vector_ned"}, 12000, 0.3 * DEG, "qt")],
     "EKF/MARG/ENU": [("default", {}, 12000, 0.3 * DEG, "qt"), ("magnetic_ref=field vector", {"magnetic_ref": "ref_vector_enu"}, 12000, 0.3 * DEG, "qt")],
@@ -174,7 +178,21 @@ def check(case, ctx):
         A[0] = a0
         if M is not None:
             M[0] = m0
+    shared = any(isinstance(v, str) and v.startswith("shared:") for v in kw.values())
+    if shared:
+        # another filter built from the same option arrays runs first, started 170 deg away (its state winds up); the caller's arrays are theirs:
+        # the judged filter must start from the options as given
+        filt.pool_changed()
+        far = rq.qnormalize(rq.qmul(rq.axang2q(ax, np.radians(170.0)), qt) if cfg.conv == "T" else rq.qmul(qt, rq.axang2q(ax, np.radians(170.0))))
+        pre = call(run_filter, cfg, kw, far, G_[:300], A[:300], None if M is None else M[:300], p["dip_deg"])
+        if not ctx.returned(pre, clause="no-exception[earlier filter built from the same option arrays]"):
+            filt.pool_changed()
+            return
     out = call(run_filter, cfg, kw, q0, G_, A, M, p["dip_deg"])
+    if shared:
+        bad = filt.pool_changed()
+        if bad:
+            ctx.note("option arrays written to by the filter: " + ",".join(bad))
     if not ctx.returned(out):
         return
     Q = np.asarray(out.value)
